@@ -35,7 +35,7 @@ import sys
 
 sys.path.insert(0, os.path.dirname(os.path.abspath(__file__)))
 from lexer import lex, TRIVIA, Lexeme  # noqa: E402
-from items import locate, LocateError  # noqa: E402
+from items import locate, children, LocateError  # noqa: E402
 
 VERIF = os.path.dirname(os.path.dirname(os.path.abspath(__file__)))
 REPO = os.environ.get("VERIF_REPO", "/repo")
@@ -382,7 +382,25 @@ def generate(root, outdir, probe=False, repo=None):
     out = os.path.join(outdir, name + ".rs")
     with open(out, "w") as f:
         f.write(text)
+    # methods that exist in a container (impl / trait) of which some method is under contract, but are not registered
+    # in any item region: a NEW entry here (w.r.t. the baseline) means e.g. an override of a default method whose
+    # contract is assumed -- the verified text then no longer describes that type's behaviour
+    registered = {}
+    for it in u.items:
+        if " / fn " in it["item"].split(" :: ", 1)[1]:
+            cont, _, fn = it["item"].split(" :: ", 1)[1].rpartition(" / fn ")
+            registered.setdefault((it["src_file"], cont), set()).add(fn.strip())
+    unregistered = []
+    for (srcfile, cont), fns in sorted(registered.items()):
+        try:
+            have = children(u.src(srcfile), cont)
+        except LocateError:
+            continue
+        for f in have:
+            if f not in fns:
+                unregistered.append("%s :: %s / fn %s" % (srcfile, cont, f))
     report = {"unit": root, "generated": out, "probe": probe, "items": u.items, "trusted": trusted,
+              "unregistered_methods": sorted(set(unregistered)),
               "files": sorted(os.path.relpath(p, VERIF) for p in u.included)}
     with open(os.path.join(outdir, name + ".extract.json"), "w") as f:
         json.dump(report, f, indent=1)
